@@ -393,11 +393,13 @@ func mustHaveRespB(query, resp *dnsmsg.Msg, errRcode dnsmsg.RCode, tcp bool, siz
 	var body []byte
 	if tcp {
 		b = pool.GetBuf(2 + 12)
+		binary.BigEndian.PutUint16(b, 12)
 		body = b[2:]
 	} else {
 		b = pool.GetBuf(12)
 		body = b
 	}
+	clear(body) // pool buffers are not zeroed. All section counts are zero.
 	id, bits := resp.Header.Pack()
 	binary.BigEndian.PutUint16(body[0:], id)
 	binary.BigEndian.PutUint16(body[2:], bits)
